@@ -371,6 +371,26 @@ impl<'a> EM<'a> {
         };
         self.rec.ev("view_f64", format!("\"view\":\"{}\",\"to\":{},\"u\":{},\"res\":{}", view, ts_idx(to), unit_idx(u), res), true);
     }
+    /// JD / MJD constructors in the GNSS scales: what they mean is the library's own convention (no statement
+    /// pins it); recorded for "a value in that scale, no panic"
+    pub fn from_view_gnss(&mut self, which: usize, x: f64) {
+        self.rec.episode();
+        let (ts, r): (TimeScale, Result<Epoch, String>) = match which % 8 {
+            0 => (TimeScale::GPST, catch(|| Epoch::from_mjd_gpst(x))),
+            1 => (TimeScale::QZSST, catch(|| Epoch::from_mjd_qzsst(x))),
+            2 => (TimeScale::GST, catch(|| Epoch::from_mjd_gst(x))),
+            3 => (TimeScale::BDT, catch(|| Epoch::from_mjd_bdt(x))),
+            4 => (TimeScale::GPST, catch(|| Epoch::from_jde_gpst(x))),
+            5 => (TimeScale::QZSST, catch(|| Epoch::from_jde_qzsst(x))),
+            6 => (TimeScale::GST, catch(|| Epoch::from_jde_gst(x))),
+            _ => (TimeScale::BDT, catch(|| Epoch::from_jde_bdt(x))),
+        };
+        let ok = r.clone().ok();
+        self.rec.ev("from_view_any", format!("\"ts\":{},\"x\":{},\"res\":{}", ts_idx(ts), jf64(x), jres_epoch(&r)), true);
+        if let Some(e) = ok {
+            self.e = e;
+        }
+    }
     pub fn from_view(&mut self, which: usize, x: f64) {
         self.rec.episode();
         let (view, ts, u, r): (&str, TimeScale, Unit, Result<Epoch, String>) = match which % NFROM {
@@ -499,6 +519,10 @@ pub fn c17(rec: &mut Rec, lm: &Landmarks, rng: &mut Rng, thorough: bool) {
     for x in [0.0, 15_020.0, 51_544.5, 2_451_545.0, 2_415_020.5, -0.0, 1.0, 2_440_587.5, 40_587.0] {
         for w in 0..NFROM {
             m.from_view(w, x);
+        }
+        for w in 0..8 {
+            m.from_view_gnss(w, x);
+            m.from_view_gnss(w, x * 1.000_000_1 + rng.f64_unit());
         }
     }
     // from_unix_duration is exact: landmark and random durations, then the UNIX views read back
